@@ -42,8 +42,10 @@ pub enum Expect {
 pub enum Cell {
     Prop { ctx: PCtx, prop: Prop, state: SessState, qos: u8, #[serde(default)] correlate: bool },
     EmptyList { subscribe: bool, state: SessState },
-    DeadHandle { op: u8, #[serde(default)] idle: bool },
+    DeadHandle { op: u8, #[serde(default)] idle: bool, #[serde(default)] death: u8 },
     Downgrade { max_qos: Option<u8>, requested: u8, flag: bool },
+    /// Maximum QoS of a first and of a second (resumed) connection; the publish happens on the second
+    Downgrade2 { first: Option<u8>, second: Option<u8>, requested: u8 },
 }
 
 fn long(n: usize) -> String {
@@ -166,13 +168,22 @@ pub fn cells() -> Vec<Cell> {
         out.push(Cell::EmptyList { subscribe: false, state });
     }
     for op in 0..5u8 {
-        out.push(Cell::DeadHandle { op, idle: false });
-        out.push(Cell::DeadHandle { op, idle: true });
+        for death in 0..6u8 {
+            out.push(Cell::DeadHandle { op, idle: false, death });
+            out.push(Cell::DeadHandle { op, idle: true, death });
+        }
     }
     for max_qos in [None, Some(0u8), Some(1), Some(2)] {
         for requested in 0..3u8 {
             for flag in [false, true] {
                 out.push(Cell::Downgrade { max_qos, requested, flag });
+            }
+        }
+    }
+    for first in [None, Some(0u8), Some(1), Some(2)] {
+        for second in [None, Some(0u8), Some(1), Some(2)] {
+            for requested in 0..3u8 {
+                out.push(Cell::Downgrade2 { first, second, requested });
             }
         }
     }
@@ -249,9 +260,25 @@ pub fn case_of(cell: &Cell) -> Case {
             });
             Case { cfg: base_cfg, broker: BrokerMode::Scripted, conns: vec![conn(rm, None, steps)] }
         }
-        Cell::DeadHandle { op, idle } => {
+        Cell::DeadHandle { op, idle, death } => {
             let so = SubOpts { qos: 0, no_local: false, rap: false, retain_handling: 0 };
-            let mut steps = if *idle { vec![Step::Eof, Step::Poll { cancel: None }] } else { vec![Step::Publish(PubSpec::simple(1, 3, 4, 1)), Step::Eof, Step::Poll { cancel: None }] };
+            let mut steps = if *idle { vec![] } else { vec![Step::Publish(PubSpec::simple(1, 3, 4, 1))] };
+            // the different ways a handle dies
+            match death {
+                0 => steps.extend([Step::Eof, Step::Poll { cancel: None }]),
+                1 => steps.extend([Step::Broker(BrokerAct::Disconnect { reason: 0x8B }), Step::Poll { cancel: None }]),
+                2 => steps.extend([Step::Broker(BrokerAct::Raw(vec![0x41, 0x02, 0x00, 0x01])), Step::Poll { cancel: None }]),
+                3 => steps.extend([
+                    // keep-alive 2 s: PINGREQ after 1 s, never answered, timeout 5 s later
+                    Step::Advance { ms: 1100 },
+                    Step::Poll { cancel: None },
+                    Step::Advance { ms: 5100 },
+                    Step::Poll { cancel: None },
+                ]),
+                4 => steps.push(Step::Disconnect { reason: None, props: None, cancel: None }),
+                _ => steps.extend([Step::FaultAt { delta: 0, eof: false }, Step::Publish(PubSpec::simple(0, 3, 4, 7))]),
+            }
+            let base_cfg = if *death == 3 { Cfg { keepalive: 2, ..base_cfg } } else { base_cfg };
             steps.push(match op {
                 0 => Step::Publish(PubSpec::simple(0, 3, 4, 2)),
                 1 => Step::Publish(PubSpec::simple(1, 3, 4, 2)),
@@ -262,6 +289,14 @@ pub fn case_of(cell: &Cell) -> Case {
             // a resumed connection afterwards must not transmit anything of the refused request
             Case { cfg: base_cfg, broker: BrokerMode::Scripted, conns: vec![conn(None, None, steps), conn(None, None, vec![Step::PollIdle { max: 6 }])] }
         }
+        Cell::Downgrade2 { first, second, requested } => Case {
+            cfg: Cfg { downgrade: true, ..base_cfg },
+            broker: BrokerMode::Scripted,
+            conns: vec![
+                conn(None, *first, vec![Step::Publish(PubSpec::simple(0, 3, 1, 1))]),
+                conn(None, *second, vec![Step::Publish(PubSpec::simple(*requested, 3, 4, 5))]),
+            ],
+        },
         Cell::Downgrade { max_qos, requested, flag } => Case {
             cfg: Cfg { downgrade: *flag, ..base_cfg },
             broker: BrokerMode::Scripted,
@@ -390,6 +425,10 @@ pub fn eval_cell(cell: &Cell) -> (Vec<Violation>, Expect) {
         }
         Cell::DeadHandle { op: which, .. } => {
             expect = Expect::Reject;
+            if trace.events.iter().rev().find_map(|e| if let Event::Sample(s) = e { s.connected } else { None }) != Some(false) && trace.ops.iter().all(|o| !matches!(o.res, OpRes::Err(ErrKind::Disconnected | ErrKind::Transport | ErrKind::InvalidPacket))) {
+                // the handle did not die in this cell (nothing to judge)
+                return (viol, Expect::Unspecified);
+            }
             // the request is the last op of the first connection
             let op = trace.ops.iter().rposition(|o| o.step.0 == 0).unwrap_or(0);
             let rec = &trace.ops[op];
@@ -402,6 +441,29 @@ pub fn eval_cell(cell: &Cell) -> (Vec<Violation>, Expect) {
             }
             if rec.touches.0 != rec.touches.1 {
                 bad(&mut viol, "C19/dead-handle-touched-transport".into(), "request on a dead handle performed transport I/O".into());
+            }
+        }
+        Cell::Downgrade2 { first, second, requested } => {
+            expect = Expect::Accept;
+            let op = trace.ops.len() - 1;
+            let rec = &trace.ops[op];
+            let want = (*requested).min(second.unwrap_or(2));
+            let wire: Vec<u8> = view.out.iter().filter(|p| p.tr == 1).filter_map(|p| if let Packet::Publish(pb) = &p.packet { Some(pb.qos) } else { None }).collect();
+            if wire != vec![want] {
+                bad(&mut viol, "C19/downgraded-qos-after-reconnect".into(), format!("auto-downgrade on, Maximum QoS {first:?} on the first and {second:?} on the current connection, requested {requested}: wire QoS {wire:?}, expected [{want}]"));
+            }
+            let handle = match &rec.res {
+                OpRes::Handle(h) => Some(trace.handle_debug.get(*h).cloned().unwrap_or_default()),
+                _ => None,
+            };
+            let ok = match (want, &handle) {
+                (0, None) => rec.res == OpRes::Ok,
+                (1, Some(d)) => d.contains("AtLeastOnce"),
+                (2, Some(d)) => d.contains("ExactlyOnce"),
+                _ => false,
+            };
+            if !ok {
+                bad(&mut viol, "C19/handle-kind-mismatch-after-reconnect".into(), format!("QoS to use {want}, publish returned {:?} / handle {handle:?}", rec.res));
             }
         }
         Cell::Downgrade { max_qos, requested, flag } => {
